@@ -70,7 +70,7 @@ def deep_update_witness(depth=2):
 
 def assign_witness():
     from nunavut._utilities import DefaultValue
-    vals = gen_vals(1)
+    vals = gen_vals(1) + [DefaultValue(1), {"a": DefaultValue(1)}, {"a": 1, "b": DefaultValue(1)}, 2]
     n = 0
     for t in vals:
         if not isinstance(t, Mapping):
@@ -156,4 +156,56 @@ def builder_history_witness(quick=False):
                 diff = [k for k in snap if not (strict_eq(now[k], snap[k]) if isinstance(snap[k], Mapping) else now[k] == snap[k])]
                 return {"input": {"first": repr(first), "later": repr(rest)}, "why": f"the earlier context now reports different {diff}", "evaluations": n}
     builder_history_witness.evaluations = n
+    return None
+
+
+def update_section_witness():
+    """LanguageConfig.update_section / update against the merge specification, incl. None / '' / False leaves."""
+    from nunavut.lang._config import LanguageConfig
+    from nunavut._utilities import DefaultValue
+    leaves = [1, None, "", False, DefaultValue(2)]
+    docs = [{}, {"k": 1}]
+    for a in leaves:
+        docs.append({"k": a})
+        docs.append({"k": a, "m": {"n": a}})
+        docs.append({"m": {"n": a, "o": 1}})
+    n = 0
+    for first in docs:
+        for second in docs:
+            n += 1
+            cfg = LanguageConfig()
+            cfg.update({"nunavut.lang.x": copy.deepcopy(first)})
+            cfg.update_section("nunavut.lang.x", copy.deepcopy(second))
+            want = M(M({}, first), second)
+            got = cfg.sections()["nunavut.lang.x"]
+            if not strict_eq(got, want):
+                return {"input": {"earlier": show(first), "later": show(second)}, "why": f"section reads {show(got)}, merge specification gives {show(want)}", "evaluations": n}
+    update_section_witness.evaluations = n
+    return None
+
+
+def cpp_validate_witness():
+    """cpp Language._validate_language_options: the std shorthand sets its group as a unit, nothing else changes."""
+    from nunavut.lang import LanguageContextBuilder
+    lang = LanguageContextBuilder(include_experimental_languages=True).set_target_language("cpp").create().get_target_language()
+    real_defaults = copy.deepcopy(lang._config.get_config_value_as_dict(lang._section, lang.WKCV_LANGUAGE_OPTION_DEFAULTS, {}))
+    synthetic = {"s1": {"g1": "", "g2": None, "g3": False, "g4": 0, "ctor_convention": "default"}, "s2": {"g1": "x"}}
+    n = 0
+    for defaults in (real_defaults, synthetic):
+        for std in list(defaults) + ["c++14", "none-such"]:
+            for extra in ({}, {"g1": "user", "g2": "user", "g3": True, "g4": 7},
+                          {k: "user-value" for d in defaults.values() for k in d if k != "ctor_convention"}):
+                n += 1
+                options = {"std": std, "ctor_convention": "default", "allocator_type": "a", **copy.deepcopy(extra)}
+                want = dict(options)
+                if std in defaults:
+                    want.update(defaults[std])
+                try:
+                    got = lang._validate_language_options(copy.deepcopy(defaults), copy.deepcopy(options))
+                except ValueError:
+                    continue  # option validation is not part of the property
+                if not strict_eq(dict(got), want):
+                    diff = {k: (got.get(k), want.get(k)) for k in set(got) | set(want) if got.get(k) != want.get(k)}
+                    return {"input": {"std": std, "options": show(options)}, "why": f"(got, contract) differ at {diff}", "evaluations": n}
+    cpp_validate_witness.evaluations = n
     return None
